@@ -6,7 +6,7 @@ add("C02", "exploration", "property-based testing against a reference model with
     "Closed goals on generated programs at default and reduced solver limits: must be decided (never Ambiguous) and agree with the reference value whenever the derivation stays within the limits with a margin.",
     "Conservative limits predicate (margin 2 on type size, 3x atoms vs overflow depth); reference semantics trusted.", "DESIGN.md 2/C02")
 add("C03", "exploration", "property-based testing of SLG enumeration streams against a reference model and stream invariants",
-    "Recorded (answer, has_next) streams of solve_multiple checked for soundness, duplicates, completeness inside the bounded universe and flag accuracy under take-all/stop-after-k policies.",
+    "Recorded (answer, has_next) streams of solve_multiple checked for soundness, duplicates, completeness inside the bounded universe and flag accuracy under take-all/stop-after-k policies; every completed stream is enumerated again on the same solver and must repeat exactly.",
     "Completeness only inside the bounded universe; stops at first Floundered item.", "DESIGN.md 2/C03")
 add("C04", "exploration", "differential testing SLG vs recursive solver on generated programs",
     "Each generated goal solved by both solvers; the property's compatibility relation is the oracle (no reference semantics needed). Programs from the Horn / auto / environment / associated-type / built-in generators, plus generated goals with const, lifetime and int/float unknowns over a fixed program compared at the text level.",
@@ -45,7 +45,7 @@ add("C26", "exploration", "property-based testing: flags recomputed from a mirro
     "Generated types over every TyKind / lifetime / const kind; the 15 occurrence flags must equal an independent recursive 'occurs' walk.",
     "Placeholder-form associated/opaque types make HAS_TY_PROJECTION/HAS_TY_OPAQUE don't-care; STILL_FURTHER_SPECIALIZABLE excluded.", "DESIGN.md 2/C26")
 add("C27", "fault_enumeration", "exhaustive fault enumeration (length x failing position x mode x layout) with drop ledger and counting allocator, plus random larger lengths",
-    "Every element dropped exactly once on Err/panic at every position, none on success, heap balance restored; exhaustive for len <= 12, random up to 200; private functions through the cfg hook and the public Vec/Box TypeFoldable route.",
+    "Every element dropped exactly once on Err/panic at every position, none on success, heap balance restored, every block freed with the layout it was allocated with and output buffers aligned for their element type; exhaustive for len <= 12, random up to 200; private functions through the cfg hook and the public Vec/Box TypeFoldable route.",
     "Reads of freed memory only visible through their effects (ids, allocator imbalance, crash).", "DESIGN.md 2/C27")
 add("C28", "exploration", "property-based testing with a structural validity predicate over all returned solutions",
     "All solutions and enumerated answers for generated goals (type, lifetime, const, int/float unknowns; nested quantifiers): arity, kinds, bound variables, universes, and applying the substitution.",
